@@ -39,6 +39,11 @@ type Case struct {
 	Phases   [][]string `json:"phases"`              // slot kinds per phase
 	Dup      string     `json:"duplicate,omitempty"` // "", same-phase, cross-phase, via-defaulting
 	Teardown bool       `json:"teardown"`
+	// Sliced: the last object of every phase (a duplicate entry included) lives in an ObjectSlice
+	// of its own instead of inline (ObjectSet owners); HideSlice: 1+index of the phase whose slice
+	// a lagging cache does not show to the first pass (0 = none)
+	Sliced    bool `json:"sliced,omitempty"`
+	HideSlice int  `json:"hideSlice,omitempty"`
 }
 
 func (c Case) String() string { b, _ := json.Marshal(c); return string(b) }
@@ -131,6 +136,7 @@ type built struct {
 	// status; a failing pass is then as good as a reported PreflightError
 	errAccepted bool
 	objs        [][]*unstructured.Unstructured
+	slices      []kmodel.Key
 }
 
 func build(c Case) *built {
@@ -183,6 +189,18 @@ func build(c Case) *built {
 			d.SetNamespace("")
 		}
 		phases[len(phases)-1].Objects = append(phases[len(phases)-1].Objects, world.O(d))
+	}
+	if c.Sliced && c.Owner == "ObjectSet" {
+		for pi := range phases {
+			n := len(phases[pi].Objects)
+			if n == 0 {
+				continue
+			}
+			name := fmt.Sprintf("own-slice-%d", pi)
+			w.MustCreate(&corev1alpha1.ObjectSlice{ObjectMeta: metav1.ObjectMeta{Name: name, Namespace: world.NS}, Objects: phases[pi].Objects[n-1:]})
+			phases[pi].Objects, phases[pi].Slices = phases[pi].Objects[:n-1], []string{name}
+			b.slices = append(b.slices, world.PKOKey("ObjectSlice", world.NS, name))
+		}
 	}
 	switch c.Owner {
 	case "ObjectSet":
@@ -259,7 +277,15 @@ func judgeRollout(c Case) ([]finding, string, []string) {
 	outcome := ""
 	// two passes: the second one must behave the same (violations are retried, not remembered)
 	for passNo := 0; passNo < 3; passNo++ {
-		pass := b.w.Reconcile(b.ctrl, b.nn, nil)
+		var plan *world.Plan
+		blind := false
+		if passNo == 0 && c.HideSlice > 0 && c.HideSlice <= len(b.slices) {
+			// a lagging cache: the pass cannot read one of the slices, so it cannot know the phase's
+			// objects - it may fail, but it must not write on the strength of the part it does see
+			plan = &world.Plan{HideInList: []kmodel.Key{b.slices[c.HideSlice-1]}}
+			blind = true
+		}
+		pass := b.w.Reconcile(b.ctrl, b.nn, plan)
 		trace = append(trace, pass.Trace()...)
 		if pass.Panic != "" {
 			return []finding{{"panic", "panic: " + pass.Panic}}, "panic", trace
@@ -275,7 +301,9 @@ func judgeRollout(c Case) ([]finding, string, []string) {
 			dup = false
 		}
 		for _, r := range pass.Reqs {
-			if !r.IsWrite() || r.Key == b.ownKey {
+			if !r.IsWrite() || r.Key == b.ownKey || (r.Key.Kind == "ObjectSlice" && r.Key.Group == "package-operator.run") {
+				// (taking ownership of its own ObjectSlices is bookkeeping on package-operator's API
+				// objects, not a write to one of the listed objects)
 				continue
 			}
 			if dup {
@@ -292,7 +320,7 @@ func judgeRollout(c Case) ([]finding, string, []string) {
 		}
 		if b.badPhase >= 0 || dup {
 			outcome = "preflight-error"
-			if (avail != "False" || reason != "PreflightError") && !(b.errAccepted && pass.Err != nil) {
+			if (avail != "False" || reason != "PreflightError") && !(b.errAccepted && pass.Err != nil) && !(blind && pass.Err != nil) {
 				out = append(out, finding{"preflight-violation-not-reported", fmt.Sprintf("preflight violation expected (first bad phase %d, dup=%q) but persisted Available=%q/%q, pass error=%v", b.badPhase+1, c.Dup, avail, reason, pass.Err)})
 			}
 			// "... and are retried": nothing else wakes a blocked owner up (it owns nothing yet and
@@ -445,6 +473,24 @@ func enumerate(quick bool) []Case {
 		// other error statuses from the dry run, first / middle / last in a phase
 		for _, e := range []string{"E503", "E429"} {
 			cases = append(cases, Case{Owner: owner, Phases: [][]string{{e, "V"}, {"V"}}}, Case{Owner: owner, Phases: [][]string{{"V", e}, {"V"}}}, Case{Owner: owner, Phases: [][]string{{"V", "V"}, {e}}})
+		}
+		// the same with the phases' last objects in ObjectSlices, every slice readable or one of
+		// them not yet visible to the first pass
+		if owner == "ObjectSet" {
+			for _, a := range slotKinds {
+				for _, b := range slotKinds {
+					for _, c := range slotKinds {
+						for hide := 0; hide <= 2; hide++ {
+							cases = append(cases, Case{Owner: owner, Phases: [][]string{{a, b}, {c}}, Sliced: true, HideSlice: hide})
+						}
+					}
+				}
+			}
+			for _, d := range []string{"same-phase", "cross-phase", "via-defaulting", "other-version"} {
+				for hide := 0; hide <= 2; hide++ {
+					cases = append(cases, Case{Owner: owner, Phases: [][]string{{"V", "V"}, {"V"}}, Dup: d, Sliced: true, HideSlice: hide})
+				}
+			}
 		}
 		// duplicates
 		for _, d := range []string{"same-phase", "cross-phase", "via-defaulting", "other-version"} {
